@@ -233,7 +233,18 @@ class Flow:
     def _find_acc(func) -> set:
         acc = set()
 
-        def visit(node, in_loop):
+        def fresh(st):
+            """the name a statement binds to a new empty / literal list, else None"""
+            if isinstance(st, ast.Assign) and len(st.targets) == 1 and isinstance(st.targets[0], ast.Name) and (
+                    isinstance(st.value, ast.List) or (isinstance(st.value, ast.Call) and isinstance(st.value.func, ast.Name) and st.value.func.id == "list"
+                                                       and not st.value.args and not st.value.keywords)):
+                return st.targets[0].id
+            return None
+
+        def visit(node, in_loop, local=frozenset()):
+            # local: the lists the innermost enclosing loop body has created afresh, at its own level, before this statement -- a list
+            # born in the iteration that appends to it (`for r in rs: parts = []; if c: parts.append(x); out.append(sep.join(parts))`)
+            # accumulates nothing across iterations: its value is tracked like that of any local (("appended", L, x) under phi)
             for ch in ast.iter_child_nodes(node):
                 if isinstance(ch, (ast.FunctionDef, ast.AsyncFunctionDef, ast.ClassDef, ast.Lambda)):
                     continue
@@ -244,9 +255,22 @@ class Flow:
                             acc.add(t.value.id)
                 if in_loop and isinstance(ch, ast.Expr) and isinstance(ch.value, ast.Call) \
                         and isinstance(ch.value.func, ast.Attribute) and isinstance(ch.value.func.value, ast.Name) \
-                        and ch.value.func.attr in ("append", "extend", "add", "update", "insert", "pop"):
+                        and ch.value.func.attr in ("append", "extend", "add", "update", "insert", "pop") \
+                        and not (ch.value.func.attr == "append" and ch.value.func.value.id in local):
                     acc.add(ch.value.func.value.id)
-                visit(ch, in_loop or isinstance(ch, (ast.For, ast.While)))
+                if isinstance(ch, (ast.For, ast.While)):
+                    born = set()
+                    for st in ch.body:
+                        visit(ast.Module(body=[st], type_ignores=[]), True, frozenset(born))
+                        if fresh(st):
+                            born.add(fresh(st))
+                        else:
+                            born -= {n.id for n in ast.walk(st) if isinstance(n, ast.Name) and isinstance(n.ctx, (ast.Store, ast.Del))}
+                    for part in (ch.orelse, [ch.iter] if isinstance(ch, ast.For) else [ch.test]):
+                        for st in part:
+                            visit(ast.Module(body=[st], type_ignores=[]) if isinstance(st, ast.stmt) else st, in_loop, local)
+                else:
+                    visit(ch, in_loop, local)
 
         visit(func, False)
         return acc
@@ -766,10 +790,43 @@ class Flow:
                    func_resolver=self.func_resolver, raise_arms=self.raise_arms, inline_loops=self.inline_loops, _uid=self._uid if self.inline_loops else None, records=self._records_arg)
         rets = [(f.value if f.kind == "return" else ("raise", f.value if f.value is not None else ("const", None)), list(f.guards))
                 for f in sub.facts if f.kind == "return" or (f.kind == "raise" and self.raise_arms)]
-        if not any(f.kind == "return" for f in sub.facts) or any(f.kind in ("store", "augstore", "attrstore", "append", "mutate") for f in sub.facts):
+        # (appends to a list the helper itself creates -- `parts = []; if c: parts.append(x); return sep.join(parts)` -- touch nothing
+        # the caller can see: outside loops the list's value is tracked exactly as ("appended", L, x) under the phi of the test)
+        fresh = self._fresh_lists(callee)
+        if not any(f.kind == "return" for f in sub.facts) or any(f.kind in ("store", "augstore", "attrstore", "append", "mutate")
+                                                                 and not (f.kind == "append" and f.op == "append" and f.target in fresh and f.target not in sub.acc) for f in sub.facts):
             return None
 
         return phi_of_paths(rets)
+
+    @staticmethod
+    def _fresh_lists(callee) -> set:
+        """Locals of a helper that are only ever bound to a fresh list (`x = []`, `x = [a, b]`, `x = list()`), are not parameters and
+        are never bound to / from another name: a list nobody outside the helper can hold."""
+        params = {a.arg for a in callee.args.posonlyargs + callee.args.args + callee.args.kwonlyargs}
+        bound, spoiled = set(), set()
+        for n in ast.walk(callee):
+            if isinstance(n, (ast.Assign, ast.AnnAssign)) and (not isinstance(n, ast.AnnAssign) or n.value is not None):
+                tgs = n.targets if isinstance(n, ast.Assign) else [n.target]
+                new = isinstance(n.value, ast.List) or (isinstance(n.value, ast.Call) and isinstance(n.value.func, ast.Name) and n.value.func.id == "list" and not n.value.args and not n.value.keywords)
+                for t in tgs:
+                    for nm in [x for x in ast.walk(t) if isinstance(x, ast.Name)]:
+                        (bound if new and nm is t else spoiled).add(nm.id)
+                if isinstance(n.value, ast.Name):
+                    spoiled.add(n.value.id)              # `alias = parts`
+        # any other binding form (for target, with .. as, walrus, augmented assignment) spoils the name
+        for n in ast.walk(callee):
+            if isinstance(n, (ast.For, ast.comprehension)):
+                spoiled |= {x.id for x in ast.walk(n.target) if isinstance(x, ast.Name)}
+            elif isinstance(n, ast.AugAssign):
+                spoiled |= {x.id for x in ast.walk(n.target) if isinstance(x, ast.Name)}
+            elif isinstance(n, ast.NamedExpr):
+                spoiled.add(n.target.id)
+            elif isinstance(n, ast.withitem) and n.optional_vars is not None:
+                spoiled |= {x.id for x in ast.walk(n.optional_vars) if isinstance(x, ast.Name)}
+            elif isinstance(n, (ast.Global, ast.Nonlocal)):
+                spoiled |= set(n.names)
+        return bound - spoiled - params
 
     # ---- binding ----------------------------------------------------------
     def bind(self, target, value, node):
